@@ -1774,9 +1774,11 @@ class SpaceUpdater(SharedSpaceOperations):
 
         self._check_member_conflict(node)
 
+        # Update each sub space after all of its bases
+        descs = nx.descendants(self._graph, node)
         self._instructions.append(
             Instruction(self._update_derived_space, (node,)))
-        for _,  v in nx.edge_dfs(self._graph, node):
+        for v in nx.topological_sort(self._graph.subgraph(descs)):
             self._instructions.append(
                 Instruction(self._update_derived_space, (v,)))
 
@@ -1789,7 +1791,7 @@ class SpaceUpdater(SharedSpaceOperations):
             self._instructions = InstructionList()
             self._instructions.append(
                 Instruction(self._update_derived_space, (node,)))
-            for _,  v in nx.edge_dfs(self._graph, node):
+            for v in nx.topological_sort(self._graph.subgraph(descs)):
                 self._instructions.append(
                     Instruction(self._update_derived_space, (v,)))
             self._instructions.execute()
